@@ -11,7 +11,7 @@ for f in ("patch.diff", "demo_test.go", "HOWTO.txt"):
 if os.path.isdir(os.path.join(src, "demo")):
     shutil.copytree(os.path.join(src, "demo"), os.path.join(dst, "demo"), dirs_exist_ok=True)
 m = json.load(open(os.path.join(src, "meta.json")))
-v = open(os.path.join(src, "verify.log")).read() if os.path.exists(os.path.join(src, "verify.log")) else ""
+v = open(os.path.join(src, "verify.log"), errors="replace").read() if os.path.exists(os.path.join(src, "verify.log")) else ""
 meta = {
     "property": m.get("property"), "summary": m.get("summary"), "needs": m.get("needs"), "files": m.get("files"),
     "origin": "fresh sub-agent given only the property text and a scratch worktree of /repo",
